@@ -7,6 +7,7 @@ Line-protocol handlers for property C14.
 
 * `c14.ser <data>`   → `<expr>`            the model `toExpr` (what the theorems are about)
 * `c14.H <data>`     → `true|false`        hypothesis `H14` of `serialize_denotes_partial`
+* `c14.J <data>`     → `true|false`        hypothesis `JsonLike` of `serialize_denotes_json`
 * `c14.eval <expr>`  → `(ok <val>)|(err <class>)`   the reference semantics `Spec.evalExpr`
 * `c14.ident <hex>`  → `<model> <spec>`    `isValidIdentifier` / `Spec.isLuaIdent`
 * `c14.i2f <int>`    → `f<16 hex>`         `intToF64`
@@ -169,6 +170,10 @@ def handle (op : String) (args : List String) : String :=
   | "H", _ :: _ =>
     match (Sexp.parse joined).bind dataOfSexp with
     | some d => toString (H14 d)
+    | none => "bad-data"
+  | "J", _ :: _ =>
+    match (Sexp.parse joined).bind dataOfSexp with
+    | some d => toString (JsonLike d)
     | none => "bad-data"
   | "eval", _ :: _ =>
     match (Sexp.parse joined).bind exprOfSexp with
